@@ -60,6 +60,7 @@ LEGACY = {
               setbol="yy_set_bol(%d);", start="YYSTATE", atbol="(int) YY_AT_BOL()"),
 }
 _legacy = [False]
+_cut = [False]              # yyless called from a function of the user-code section (the second definition of yyless / the c99 function)
 _less_direct = [False]      # %array programs: yyless always gets the expression itself (the macro adjusts for text kept by yymore)
 
 
@@ -98,7 +99,9 @@ def action_c(rule_no, ops, backend, lineno_on, bol_obs):
             else:
                 n = "(%s > %d ? %s - %d : 0)" % (a['leng'], o[2], a['leng'], o[2])
             # (the argument is kept free of parentheses: the c99 action scanner cuts yyless(...) at the first ')')
-            if backend != 'c99' and (_less_direct[0] or (rule_no + len(out)) % 2 == 0):
+            if _cut[0] and rule_no % 2 == 1:
+                out.append("cut_(%s%s);" % (n, "" if backend == 'nr' else ", yyscanner"))
+            elif backend != 'c99' and (_less_direct[0] or (rule_no + len(out)) % 2 == 0):
                 # the manual's own idiom: the expression (it mentions yyleng) is the macro argument itself
                 out.append(a['less'] % n)
             else:
@@ -305,6 +308,8 @@ def make_stream_spec(prog, acts, eofs, rng, backend, lineno_on, extra_options=No
     # every third program of the C back ends is written with the legacy spellings
     _legacy[0] = backend in LEGACY and (len(prog['rules']) + len(acts) + len(eofs)) % 3 == 0
     _less_direct[0] = "array" in list(extra_options or [])
+    _cut[0] = (backend in ('nr', 'r', 'c99') and len(prog['rules']) % 2 == 0 and "array" not in list(extra_options or []) and
+               not any(o[0] == 'more' for ops in list(acts.values()) + list(eofs.values()) for o in ops))
     bol_obs = any(r.get('bol') for r in prog['rules'])
     nrules = len(prog['rules'])
     opts = ["nounput" if not any(o[0] == 'unput' for ops in list(acts.values()) + list(eofs.values()) for o in ops) else "",
@@ -317,6 +322,8 @@ def make_stream_spec(prog, acts, eofs, rng, backend, lineno_on, extra_options=No
         opts.append("case-insensitive")
     out = ["%option " + " ".join(o for o in opts if o)]
     top = TOP
+    if backend in ('nr', 'r', 'c99'):
+        top += "static void cut_(int n%s);\n" % ("" if backend == 'nr' else ", yyscan_t yyscanner")
     if backend == 'cxx':
         top += "#include <fstream>\n#include <sstream>\n#include <string>\n"
     a = api(backend)
@@ -348,7 +355,10 @@ def make_stream_spec(prog, acts, eofs, rng, backend, lineno_on, extra_options=No
         body = 'printf("E %%d\\n", (int) %s);' % api(backend)['start'] + " " + action_c(0, eofs[unq[0]], backend, lineno_on, bol_obs)
         out.append("<<EOF>>\t{ %s }" % body)
     out.append("%%")
-    out.append(EV_C + MAIN[backend])
+    cut = {'nr': "static void cut_(int n) { yyless(n); }\n",
+           'r': "static void cut_(int n, yyscan_t yyscanner) { struct yyguts_t *yyg = (struct yyguts_t *) yyscanner; yyless(n); (void) yyg; }\n",
+           'c99': "static void cut_(int n, yyscan_t yyscanner) { yyless(n, yyscanner); }\n"}.get(backend, "")
+    out.append(cut + EV_C + MAIN[backend])
     return "\n".join(out) + "\n"
 
 
